@@ -52,7 +52,7 @@ manifest = {
     }],
     "checks": checks,
     "not_applicable": na,
-    "notes": "Family: contract-based deductive verification of the real code. Exit 0 held / 1 VIOLATION / 2 undecided without stand-in / 3 checker fault. KNOWN_FINDINGS.jsonl lists recorded defects and fixed: entries.",
+    "notes": "Family: contract-based deductive verification of the real code. Exit 0 held / 1 VIOLATION / 2 no verdict (a function that is under a discharged contract on the unchanged tree is outside the verifier's subset after a code change; never on the unchanged tree) / 3 checker fault. KNOWN_FINDINGS.jsonl lists recorded defects and fixed: entries.",
 }
 json.dump(manifest, open(os.path.join(VERIF, "MANIFEST.json"), "w"), indent=1)
 print("checks:", [c["property_id"] for c in checks], "not_applicable:", len(na))
